@@ -55,6 +55,16 @@ class Ctx:
     def check(self, *extra):
         t = time.time()
         r = self.solver.check(*extra)
+        if r == z3.unknown:
+            # the solver's limit is wall-clock time: on a loaded machine a query that needs a few
+            # seconds can run out; ask once more with a fresh solver and three times the limit
+            # before calling it inconclusive
+            s2 = z3.Solver()
+            s2.set('timeout', 3 * QUERY_TIMEOUT_MS)
+            s2.add(self.solver.assertions())
+            r = s2.check(*extra)
+            self.solver = s2          # same assertions; models are read from the solver that answered
+            self.retries = getattr(self, 'retries', 0) + 1
         self.tq += time.time() - t
         self.nq += 1
         return r
